@@ -130,6 +130,15 @@ theorem close_wakes_and_waits :
     after (bodyOf Gen.FactsC15.closeBodies "Mux.Close") "range{underlay.Close()}" "<-m.maintenanceDone" = true ∧
     after (bodyOf Gen.FactsC15.closeBodies "Mux.Close") "range{underlay.Close()}" "m.serverUnderlayLoopWG.Wait()" = true := by decide
 
+/-- Structural tie for "the other end is told": the close request that `Session.Close` queues is what
+    ends its wait — `lastSend` is stored at one place, and not for acknowledgements, which repeat the
+    number of the close request while it is still queued; and the server's UDP event loop, whose return
+    closes the socket, closes the sessions (`u.Close()`) before it returns on a cancelled context. -/
+theorem close_request_is_sent :
+    Gen.FactsC15.lastSendStores = [("Session.output", "!isAckProtocol(seg.Protocol())")] ∧
+    (Gen.FactsC15.ctxDoneBodies.filter fun x => x.1 == "PacketUnderlay.RunEventLoop").map
+      (fun x => after x.2 "u.Close()" "return nil") = [true] := by decide
+
 /-! ## Deadlines -/
 open Mieru.Deadline
 
